@@ -1,6 +1,6 @@
 (* Model/C14Check.v — Z / Qc instances and certificate checks for nvecs evaluated by the generated cases. *)
 From Coq Require Import List Arith Bool ZArith QArith Qabs Qcanon.
-From PV Require Import Base.Index Base.Sum Np.Array Model.Sparse Model.Repr Model.Harness Model.C10Tucker Model.C10Check Model.C14Nvecs Model.C14Gram.
+From PV Require Import Base.Index Base.Sum Np.Array Model.Sparse Model.Repr Model.Harness Model.C10Tucker Model.C10Check Model.C14Nvecs Model.C14Gram Model.C01Ttm Model.C14Unfold.
 Import ListNotations.
 Local Open Scope Qc_scope.
 
@@ -28,6 +28,18 @@ Definition gram_dense_code (T : dense Z) (n : nat) := gram_dense_impl 0%Z Z.add 
 Definition gram_k_code (K : ktensor Z) (n : nat) := gram_k_impl 0%Z Z.add Z.mul K n.
 Definition gram_sp_code (Sp : sparse Z) (n : nat) := gram_sp_impl 0%Z Z.add Z.mul Sp n.
 Definition gram_t_code (T : ttensor Z) (n : nat) := gram_t_impl 0%Z 1%Z Z.add Z.mul T n.
+
+(* ... and as built from the generated gather_wrap_dims + C01's to_tenmat + tensor.ttm (C14_gram_dense_code / C14_gram_tucker_code) *)
+Definition omat_eqb (o : option (list (list Z))) (Y : list (list Z)) : bool :=
+  match o with Some M => mat_eqb M Y | None => false end.
+Definition gram_dense_tm_code (T : dense Z) (n : nat) := gram_dense_tm 0%Z Z.add Z.mul T n.
+Definition gram_t_tm_code (T : ttensor Z) (n : nat) := gram_t_tm 0%Z Z.add Z.mul T n.
+
+(* sparse-core branch (C14_gram_tucker_sparse_core): the core as STORED, H = core x_m V_m held sparse and held dense *)
+Definition gram_tsp_code (GS : sparse Z) (Us : list (list (list Z))) (n : nat) (Y : list (list Z)) : bool :=
+  let Hd := ttensor_full_impl 0%Z Z.add Z.mul (mkT (full 0%Z GS) (tucker_vs 0%Z Z.add Z.mul Us n)) in
+  omat_eqb (gram_tsp_tm 0%Z Z.add Z.mul (Z.eqb 0) (HSparse (to_sptensor 0%Z (Z.eqb 0) Hd)) GS (nth n Us []) n) Y &&
+  omat_eqb (gram_tsp_tm 0%Z Z.add Z.mul (Z.eqb 0) (HDense Hd) GS (nth n Us []) n) Y.
 
 Definition qcol (V : qmatrix) (j : nat) : list Qc := map (fun row => nth j row q0) V.
 Definition qdot (a b : list Qc) : Qc := sum_over q0 Qcplus (combine a b) (fun p => fst p * snd p).
@@ -58,3 +70,10 @@ Fixpoint all_same_subspace (eps : Qc) (Vs : list qmatrix) : bool :=
 Definition qpost := postprocess q0 qabs Qcopp qltb.
 Definition qcols_eqb (A B : list (list Qc)) : bool := list_eqb (list_eqb Qc_eq_bool) A B.
 Definition eps6 : Qc := Q2Qc (1 # 1000000).
+
+(* recorded solver input close to the Gram matrix of the denotation (inputs whose products are rounded: factors on the 2^-30 grid,
+   a Kruskal tensor after normalize): within 1e-12 of the trace, entrywise *)
+Definition eps12 : Qc := Q2Qc (1 # 1000000000000).
+Definition gram_recorded_close (R : zrepr) (n : nat) (Y : qmatrix) : bool :=
+  let G := zq (rgram R n) in
+  Nat.eqb (length Y) (length G) && qmat_close (eps12 * qmax q1 (qtrace G)) G Y.
